@@ -129,14 +129,20 @@ func (m *mux) Vars(r *http.Request) map[string]string {
 	if len(params.Keys) == 0 {
 		return nil
 	}
+	// chi matches against the escaped path when the URL has one and against
+	// the already decoded path otherwise, only the former needs unescaping.
+	unesc := unescape
+	if r.URL.RawPath == "" {
+		unesc = func(s string) string { return s }
+	}
 	vars := make(map[string]string, len(params.Keys))
 	for i, k := range params.Keys {
 		if k == "*" {
 			wildcard := m.wildcards[r.Method+"::"+ctx.RoutePattern()]
-			vars[wildcard] = unescape(params.Values[i])
+			vars[wildcard] = unesc(params.Values[i])
 			continue
 		}
-		vars[k] = unescape(params.Values[i])
+		vars[k] = unesc(params.Values[i])
 	}
 	return vars
 }
